@@ -11,11 +11,39 @@ from . import lib, shared, c01, c06, jitmodel
 from .lib import CheckError
 
 JIT_ALLOW = {
-    "ALLOC": "emitted only for variables that are both captured and assigned; the boxing pass rewrites those into boxes before code generation (assumed, not checked)",
-    "READALLOC": "see ALLOC",
-    "SETALLOC": "see ALLOC",
     "DynSuperInstruction": "the trampoline opcode itself: only written into closures that have already been compiled, which are never handed to the translator again",
 }
+
+
+def gated_opcodes(F):
+    """opcodes for which the gate in front of the translator (a function in jit2::cgen that is reached from compile_bytecode
+    before JIT::compile and matches on the opcode) answers 'do not compile' unconditionally"""
+    cb = F.one(r"^steel::jit2::cgen::compile_bytecode$")
+    out = set()
+    seen = set()
+    frontier = [(cb.name, 0)]
+    while frontier:
+        n, d = frontier.pop()
+        if n in seen or d > 3:
+            continue
+        seen.add(n)
+        f = F.fns.get(n)
+        if not f or not n.startswith("steel::jit2::") or "FunctionTranslator" in n or "{impl JIT}::compile" in n:
+            continue
+        if n != cb.name and f.d.get("out") == "bool":
+            for sb in lib.enum_switches(f, "OpCode"):
+                am = lib.arm_map(f, sb)
+                for v, t in am.items():
+                    if v == "_" or t == am.get("_"):
+                        continue
+                    region = f.reachable_from([t], avoid=set(lib.enum_switches(f, "OpCode")))
+                    calls = [b for b in region if f.blocks[b]["k"] == "call"]
+                    consts = [e[2] for b in region for e in f.blocks[b]["e"] if e[0] == "kv" and e[1] == "_0"]
+                    if not calls and consts and all(c == "const:0" for c in consts):
+                        out.add(v)
+        for c in F.callees(f, expand_unresolved=False):
+            frontier.append((c, d + 1))
+    return out
 
 
 def run(F, R, ctx):
@@ -24,6 +52,8 @@ def run(F, R, ctx):
     jitmodel.deopt_rule(F, R, "C02.x")
     jitmodel.helper_panic_rule(F, R, "C07.j")
     jitmodel.name_table_gate_rule(F, R, "C02.n")
+    jitmodel.branch_facts_rule(F, R, "C02.f")
+    jitmodel.assigned_local_rule(F, R, "C02.k")
 
 
 def _run(F, R, ctx):
@@ -46,12 +76,17 @@ def _run(F, R, ctx):
     _, tr, s = best
     m = lib.arm_map(tr, s)
     gidx = shared.gidx_vm(F)
+    gated = gated_opcodes(F)
     n = 0
     for op in sorted(em):
         t = m.get(op, m["_"])
         bl = c01.first_call(tr, t)
         bad = bl is not None and "panicking" in bl["callee"]
         n += 1
+        if bad and op in gated:
+            R.inst("C02.a", "translator arm %s (unimplemented, gated before translation)" % op, True,
+                   sample={"gate": "compile_bytecode refuses bytecode containing this opcode"}, nontrivial=True)
+            continue
         if op in JIT_ALLOW:
             R.inst("C02.a", "translator arm %s (allowlisted)" % op, True, sample={"reason": JIT_ALLOW[op]}, nontrivial=False)
             continue
